@@ -17,6 +17,8 @@ pub struct Cfg {
 #[derive(Clone, Debug)]
 pub enum Ev {
     Tick(u32),
+    /// n ticks during which nobody reads value() or the phase (a control-rate reader); one look afterwards
+    TickBlind(u32),
     GateOn,
     GateOff,
     /// 0 attack, 1 decay, 2 sustain, 3 release; raw f32 bits handed to the From<f32> conversion
@@ -48,6 +50,7 @@ const P_TIMED_PHASES_COMPLETED: usize = 18;
 const P_SWEEP_TRACES: usize = 19;
 const P_RETRIG_FROM_DECAY: usize = 20;
 const P_GATE_OFF_IN_ATTACK: usize = 21;
+const P_BLIND_TICKS: usize = 22;
 
 const S_ATTACK: f64 = 1.8125; // steepest slope of the documented attack curve in phase units (incl. 1024/1023 stretch)
 const S_DECAY: f64 = 4.0786; // same for the decay/release curve
@@ -331,6 +334,7 @@ impl Engine for AdsrEngine {
         "sweep_traces",
         "retrigger_from_decay",
         "gate_off_during_attack",
+        "unobserved_tick_stretches",
     ];
     const NFAULT: usize = 8;
     const COMPONENTS: &'static [(&'static str, &'static str)] = &[
@@ -376,6 +380,92 @@ impl Engine for AdsrEngine {
                         heartbeat();
                     }
                 }
+            }
+            Ev::TickBlind(n) => {
+                ctx.sim_ns += (*n as f64 * 1e9 / ex.fs as f64) as u64;
+                let st0 = ex.st;
+                for i in 0..*n {
+                    real!(ex.a.tick());
+                    if i & 0xffff == 0xffff {
+                        heartbeat();
+                    }
+                }
+                ctx.steps += *n as u64;
+                ex.ticks_total += *n as u64;
+                ctx.probe(P_BLIND_TICKS);
+                let v = ex.a.value();
+                let st1 = ex.a.verif_state();
+                let bits = ex.a.verif_phase_bits();
+                // what may have happened while nobody looked
+                let legal = match st0 {
+                    State::Sustain | State::AtRest => st1 == st0,
+                    State::Attack => matches!(st1, State::Attack | State::Decay | State::Sustain),
+                    State::Decay => matches!(st1, State::Decay | State::Sustain),
+                    State::Release => matches!(st1, State::Release | State::AtRest),
+                };
+                ctx.check(2, "tick_transition", legal, || format!("{} unobserved ticks moved {:?} -> {:?}", n, st0, st1));
+                // three times the nominal length is far beyond the statement's upper bound (N/(1-N/2^24)+2 <= 1.3 N + 2)
+                let done = |ex: &Exec, phases: &[State]| -> Option<f64> {
+                    let mut tot = 0.0;
+                    for p in phases {
+                        ex.phase_time(*p)?;
+                        tot += ex.nominal_ticks(*p).max(1.0);
+                    }
+                    Some(3.0 * tot + 40.0)
+                };
+                let must = match st0 {
+                    State::Attack => done(ex, &[State::Attack, State::Decay]).map(|b| (b, State::Sustain)),
+                    State::Decay => done(ex, &[State::Decay]).map(|b| (b, State::Sustain)),
+                    State::Release => done(ex, &[State::Release]).map(|b| (b, State::AtRest)),
+                    _ => None,
+                };
+                if let Some((b, want)) = must {
+                    if *n as f64 >= b && !ex.phase_unknown {
+                        ctx.check(2, "phase_not_late", st1 == want, || {
+                            format!("{:?} followed by {} unobserved ticks (3x the configured durations) is still in {:?}", st0, n, st1)
+                        });
+                        ctx.check(17, "envelope_terminates", st1 == want, || {
+                            format!("{:?} followed by {} unobserved ticks is still in {:?}", st0, n, st1)
+                        });
+                    }
+                }
+                // the output at the moment of the look
+                ctx.check(1, "range", (0.0..=1.0).contains(&v), || format!("value {:e} outside [0,1] in {:?}", v, st1));
+                let s = ex.par[2];
+                match st1 {
+                    State::Sustain => {
+                        if let Some(s) = s {
+                            ctx.check(1, "sustain_exact", v == s, || format!("sustain outputs {:e}, level is {:e}", v, s));
+                        }
+                    }
+                    State::AtRest => ctx.check(1, "rest_is_zero", v == 0.0, || format!("at rest outputs {:e}", v)),
+                    _ => {}
+                }
+                if timed(st1) && st1 == st0 && ctx.on(1) {
+                    let x = bits as f64 / TWO24;
+                    let ideal = match st1 {
+                        State::Attack => Some(ex.l0_on as f64 + (1.0 - ex.l0_on as f64) * curve_attack(x)),
+                        State::Decay => s.map(|s| s as f64 + (1.0 - s as f64) * curve_decay(x)),
+                        _ => Some(ex.l0_off as f64 * curve_decay(x)),
+                    };
+                    if let Some(ideal) = ideal {
+                        ctx.check(1, "curve_fidelity", (v as f64 - ideal).abs() <= 0.005, || {
+                            format!("{:?} at phase {:.6} after unobserved ticks: value {:.6}, documented RC curve {:.6}", st1, x, v, ideal)
+                        });
+                    }
+                }
+                // resynchronise: how long the current phase has been running is not known any more
+                if st1 != st0 {
+                    ex.reset_phase();
+                }
+                if timed(st1) {
+                    ex.phase_unknown = true;
+                }
+                ex.st = st1;
+                ex.v_prev = v;
+                ex.ds = 0.0;
+                ex.s_changed = false;
+                ctx.transition(sidx(st0) | 6 << 3 | sidx(st1) << 6 | ((*n).min(63)) << 13);
             }
             Ev::GateOn | Ev::GateOff => {
                 let on = matches!(ev, Ev::GateOn);
@@ -540,6 +630,8 @@ impl Engine for AdsrEngine {
     fn run(rng: &mut Rng, prof: &Profile, run: u64, sink: &mut Sink<Self>) {
         if prof.chaos {
             chaos_run(rng, prof, sink);
+        } else if run == 3 && prof.tier == Tier::Thorough {
+            random_run_m(rng, prof, sink, true);
         } else if run % 8 == 7 {
             sweep_run(rng, prof, sink);
         } else {
@@ -556,6 +648,7 @@ impl Engine for AdsrEngine {
     fn ev_json(e: &Ev) -> J {
         match e {
             Ev::Tick(n) => J::Arr(vec![J::s("tick"), J::u(*n as u64)]),
+            Ev::TickBlind(n) => J::Arr(vec![J::s("tick_unobserved"), J::u(*n as u64)]),
             Ev::GateOn => J::Arr(vec![J::s("gate_on")]),
             Ev::GateOff => J::Arr(vec![J::s("gate_off")]),
             Ev::Set(w, b) => J::Arr(vec![
@@ -571,6 +664,7 @@ impl Engine for AdsrEngine {
         let (n, a) = ev_name(j)?;
         Ok(match n {
             "tick" => Ev::Tick(ju64(arg(a, 0)?)? as u32),
+            "tick_unobserved" => Ev::TickBlind(ju64(arg(a, 0)?)? as u32),
             "gate_on" => Ev::GateOn,
             "gate_off" => Ev::GateOff,
             "set" => {
@@ -595,6 +689,14 @@ impl Engine for AdsrEngine {
                     v.push(Ev::Tick(1));
                     v.push(Ev::Tick(n / 2));
                     v.push(Ev::Tick(n - 1));
+                }
+                v
+            }
+            Ev::TickBlind(n) => {
+                let mut v = vec![Ev::Tick(*n)];
+                if *n > 1 {
+                    v.push(Ev::TickBlind(n / 2));
+                    v.push(Ev::TickBlind(n - 1));
                 }
                 v
             }
@@ -670,6 +772,10 @@ fn gen_level(rng: &mut Rng, glitch: bool) -> f32 {
 }
 
 fn random_run(rng: &mut Rng, prof: &Profile, sink: &mut Sink<AdsrEngine>) {
+    random_run_m(rng, prof, sink, false)
+}
+
+fn random_run_m(rng: &mut Rng, prof: &Profile, sink: &mut Sink<AdsrEngine>, marathon: bool) {
     let fs = gen_fs(rng);
     let slow = rng.chance(if prof.tier == Tier::Thorough { 0.12 } else { 0.06 });
     let n_target = if slow { rng.log_uniform(3e4, 4e6) } else { rng.log_uniform(0.3, 3000.0) };
@@ -680,6 +786,8 @@ fn random_run(rng: &mut Rng, prof: &Profile, sink: &mut Sink<AdsrEngine>) {
     };
     let glitch = rng.chance(0.6);
     let style = rng.below(4); // 0 periodic, 1 uniform pick, 2 bursty, 3 targeted
+    // in a sixth of the runs value() and the phase are read only now and then (control-rate reader)
+    let blind = rng.chance(0.16);
     let max_events = 40 + rng.usize(260);
     let mut t = sink.begin(Cfg { fs });
     // initial panel settings
@@ -691,6 +799,19 @@ fn random_run(rng: &mut Rng, prof: &Profile, sink: &mut Sink<AdsrEngine>) {
     }
     let mut gate = false;
     let mut last_state = State::AtRest;
+    if prof.tier == Tier::Thorough && marathon {
+        // a day of uptime: more ticks than a 32-bit sample counter holds, spent idle, then the instrument is played
+        if rng.chance(0.5) {
+            t.push(Ev::GateOn);
+            let need = (t.exec().nominal_ticks(State::Attack) + t.exec().nominal_ticks(State::Decay)) * 1.4 + 16.0;
+            t.push(Ev::Tick(need.min(3.0e6) as u32));
+        }
+        t.push(Ev::TickBlind(u32::MAX - rng.below(1000) as u32));
+        t.push(Ev::TickBlind(rng.range(1, 3000) as u32));
+        t.push(Ev::GateOff);
+        t.push(Ev::Tick(rng.range(1, 200) as u32));
+        t.push(Ev::GateOn);
+    }
     // long-running blocks (where narrow counters wrap), in a small share of the runs
     if rng.chance(0.02) {
         match rng.below(3) {
@@ -759,7 +880,7 @@ fn random_run(rng: &mut Rng, prof: &Profile, sink: &mut Sink<AdsrEngine>) {
             continue;
         }
         let w_tick = if style == 2 { 30 } else { 50 };
-        let act = rng.weighted(&[w_tick, 14, 14, 16, 1, 3]);
+        let act = rng.weighted(&[w_tick, 14, 14, 16, 1, 3, 3]);
         match act {
             0 => {
                 let ex = t.exec();
@@ -779,7 +900,11 @@ fn random_run(rng: &mut Rng, prof: &Profile, sink: &mut Sink<AdsrEngine>) {
                 };
                 let left = budget.saturating_sub(t.ctx.steps).max(1);
                 let n = (n.max(1.0) as u64).min(left).min(u32::MAX as u64) as u32;
-                t.push(Ev::Tick(n));
+                if blind && rng.chance(0.5) {
+                    t.push(Ev::TickBlind(n));
+                } else {
+                    t.push(Ev::Tick(n));
+                }
             }
             1 => {
                 t.push(Ev::GateOn);
@@ -795,6 +920,28 @@ fn random_run(rng: &mut Rng, prof: &Profile, sink: &mut Sink<AdsrEngine>) {
                 t.push(Ev::Set(w, x.to_bits()));
             }
             4 => t.push(Ev::Restart),
+            6 => {
+                // a smoothed pot handed to the envelope every tick: many tiny steps in one direction
+                let w = rng.below(4) as u8;
+                let k = rng.range(20, 300);
+                if w == 2 {
+                    let mut x = gen_level(rng, false) as f64;
+                    let d = rng.log_uniform(1e-7, 1e-3) * if rng.chance(0.5) { -1.0 } else { 1.0 };
+                    for _ in 0..k {
+                        x = (x + d).clamp(0.0, 1.0);
+                        t.push(Ev::Set(2, (x as f32).to_bits()));
+                        t.push(Ev::Tick(1));
+                    }
+                } else {
+                    let mut x = gen_time(rng, fs, n_target, false) as f64;
+                    let r = 1.0 + rng.log_uniform(1e-6, 1e-2) * if rng.chance(0.5) { -1.0 } else { 1.0 };
+                    for _ in 0..k {
+                        x = (x * r).clamp(0.001, 20.0);
+                        t.push(Ev::Set(w, (x as f32).to_bits()));
+                        t.push(Ev::Tick(rng.range(1, 2) as u32));
+                    }
+                }
+            }
             _ => {
                 // gate chatter: several gate events within one tick
                 for _ in 0..rng.range(2, 5) {
